@@ -123,8 +123,9 @@ macro_rules! impl_prob_fast {
 impl_prob_fast!(u8);
 impl_prob_fast!(u16);
 impl_prob_fast!(u32);
+impl_prob_fast!(u64);
 
-/// Probability types; `u32` has no lookup models (`Probability: Into<usize>`).
+/// Probability types; `u32` and `u64` have no lookup models (`Probability: Into<usize>`).
 pub trait Prob: BitArray + AsPrimitive<usize> + ProbFast + 'static
 where
     usize: AsPrimitive<Self>,
@@ -491,7 +492,9 @@ macro_rules! impl_lookup_wrappers {
 impl_lookup_wrappers!(u8);
 impl_lookup_wrappers!(u16);
 
-impl Prob for u32 {
+macro_rules! impl_prob_no_lookup {
+    ($Pr:ty) => {
+impl Prob for $Pr {
     fn contig_to_lookup<Cdf: AsRef<[Self]>, const P: usize>(
         _m: &ContiguousCategoricalEntropyModel<Self, Cdf, P>,
     ) -> Conv {
@@ -522,6 +525,11 @@ impl Prob for u32 {
         None
     }
 }
+
+    };
+}
+impl_prob_no_lookup!(u32);
+impl_prob_no_lookup!(u64);
 
 // ---- constructors ---------------------------------------------------------------------
 
@@ -617,6 +625,8 @@ pub const BPS: &[(u32, &[u32])] = &[
     (8, &[1, 2, 3, 4, 7, 8]),
     (16, &[1, 2, 3, 4, 8, 12, 15, 16]),
     (32, &[1, 2, 3, 4, 12, 16, 24, 31, 32]),
+    // `PRECISION == usize::BITS`: `wrapping_pow2::<usize>(PRECISION)` is 0 in `UniformModel::new`
+    (64, &[1, 24, 63, 64]),
 ];
 
 macro_rules! dispatch_bp {
@@ -645,6 +655,10 @@ macro_rules! dispatch_bp {
             (32, 24) => Some($f::<u32, 24>($($arg),*)),
             (32, 31) => Some($f::<u32, 31>($($arg),*)),
             (32, 32) => Some($f::<u32, 32>($($arg),*)),
+            (64, 1) => Some($f::<u64, 1>($($arg),*)),
+            (64, 24) => Some($f::<u64, 24>($($arg),*)),
+            (64, 63) => Some($f::<u64, 63>($($arg),*)),
+            (64, 64) => Some($f::<u64, 64>($($arg),*)),
             _ => None,
         }
     };
